@@ -67,6 +67,12 @@ impl Space for YmRoutes {
             return;
         }
         let canon = canonical.ok().cloned();
+        // every getter of the year-month against the Gregorian rule
+        if let Some(v) = &canon {
+            let got = call_inf(|| (v.iso_year() as i64, v.iso_month(), v.month_code().as_str().to_string(), v.days_in_month(), v.days_in_year(), v.months_in_year(), v.in_leap_year(), v.era().map(|e| e.to_string()), v.era_year(), v.calendar_id().to_string(), format!("{v}")));
+            let want = (y, m, format!("M{m:02}"), days_in_month(y, m) as u16, days_in_year(y), 12u16, is_leap(y), None::<String>, None::<i32>, "iso8601".to_string(), format!("{}-{m:02}", year_text(y)));
+            out.lockstep("PlainYearMonth getters and Display", &Ok(format!("{want:?}")), &got.map(|x| format!("{x:?}")), |a, b| a == b, || base_attrs("getters"));
+        }
         let mut routes: Vec<(String, Oc<PlainYearMonth>)> = vec![];
         if (1..=12).contains(&m) {
             let ys = year_text(y);
@@ -408,7 +414,7 @@ impl Space for MonthDays {
         if valid_month && d >= 1 && d <= dim72 {
             let Oc::Ok(canon) = call(|| PlainMonthDay::new_with_overflow(m, d, Calendar::default(), ArithmeticOverflow::Reject, None)) else { return };
             let want = md_snapshot(&canon);
-            out.law("month-day calendar_id", canon.calendar_id() == "iso8601", || vec![("month", m.to_string()), ("day", d.to_string())]);
+            out.law("month-day calendar_id and Display", canon.calendar_id() == "iso8601" && format!("{canon}") == format!("{m:02}-{d:02}"), || vec![("month", m.to_string()), ("day", d.to_string())]);
             let mut routes: Vec<(String, Oc<PlainMonthDay>)> = vec![];
             for t in [format!("{m:02}-{d:02}"), format!("--{m:02}-{d:02}"), format!("{m:02}{d:02}"), format!("--{m:02}{d:02}"), format!("{m:02}-{d:02}[u-ca=iso8601]")] {
                 routes.push((format!("from_str({t})"), call(|| PlainMonthDay::from_str(&t))));
